@@ -75,6 +75,10 @@ def run_directed(case, ctx):
         "mask": lambda: v[S.Vector(case["mask"])] if n else v[S.Vector([], dtype=bool)],
         "to_object": lambda: v.to_object(), "sort": lambda: v.sort_by(), "T": lambda: v.T, "unique": lambda: v.unique(),
         "eq": lambda: v == s, "isinstance": lambda: v.isinstance(int),
+        "and-scalar": lambda: v & s, "or-scalar": lambda: v | s, "xor-scalar": lambda: v ^ s, "rand-scalar": lambda: s & v, "ror-scalar": lambda: s | v,
+        "and-list": lambda: v & list(others), "or-vector": lambda: v | S.Vector(list(others)), "xor-list": lambda: v ^ list(others),
+        "new": lambda: S.Vector.new(s, max(n, 1)), "new-none": lambda: S.Vector.new(None, max(n, 1)), "new-empty": lambda: S.Vector.new(s, 0),
+        "new-first-element": lambda: S.Vector.new(vals[0] if vals else None, 2),
         "proxy-upper": lambda: v.upper(), "proxy-bit_length": lambda: v.bit_length(), "prop-year": lambda: v.year, "prop-real": lambda: v.real,
         "pluck": lambda: v.pluck(0),
     }
